@@ -1397,7 +1397,27 @@ func checkLoadedTreeIsParsed(w *World, r *Report) {
 		r.note("no LoadFromCompiled function: R16.9 not applicable")
 		return
 	}
-	fn := w.ssaFunc(obj)
+	n := checkTreeIsParsed(w, r, "R16.9", w.ssaFunc(obj))
+	r.floor("stores of the loaded template's tree", n, 1)
+}
+
+// checkTreesAreParsed — R14.10: every template's tree is what the parser made of its source.  In
+// every function of the package that stores a Template's nodes, the stored tree comes — on every
+// edge, through helpers — from Parser.Parse (or was handed in as a parameter): a helper that
+// builds a tree itself for sources that "contain no tags" is a second grammar, chosen by a scan
+// of the text.
+func checkTreesAreParsed(w *World, r *Report) {
+	n := 0
+	for _, fn := range w.pkgFuncs() {
+		if fn.Name() == "LoadFromCompiled" {
+			continue // R16.9
+		}
+		n += checkTreeIsParsed(w, r, "R14.10", fn)
+	}
+	r.floor("stores of a template's tree", n, 2)
+}
+
+func checkTreeIsParsed(w *World, r *Report, rule string, fn *ssa.Function) int {
 	parse := w.method("Parser", "Parse")
 	n := 0
 	instrsOf(fn, func(in ssa.Instruction) {
@@ -1421,6 +1441,10 @@ func checkLoadedTreeIsParsed(w *World, r *Report) {
 			switch x := v.(type) {
 			case *ssa.Const:
 				return
+			case *ssa.Parameter:
+				if rule != "R16.9" {
+					return // handed in by the caller (RegisterTemplate-style constructors)
+				}
 			case *ssa.Phi:
 				for _, e := range x.Edges {
 					walk(e, d+1)
@@ -1475,12 +1499,12 @@ func checkLoadedTreeIsParsed(w *World, r *Report) {
 		}
 		walk(st.Val, 0)
 		if bad == "" {
-			r.ok("R16.9", ssaName(fn), construct, w.posOf(in.Pos()), "every source of the stored tree is Parser.Parse (or the decoder's variable)", true)
+			r.ok(rule, ssaName(fn), construct, w.posOf(in.Pos()), "every source of the stored tree is Parser.Parse (or the decoder's variable / a parameter)", true)
 		} else {
-			r.bad("R16.9", ssaName(fn), construct, w.posOf(in.Pos()), "the tree stored in the loaded template can come from "+bad+", not from parsing the stored source: a compiled template then renders like its source only where that shortcut reproduces the tokenizer and parser exactly (comments, escaped delimiters, whitespace control)")
+			r.bad(rule, ssaName(fn), construct, w.posOf(in.Pos()), "the tree stored in the template can come from "+bad+", not from parsing the source: the template then renders like its source only where that shortcut reproduces the tokenizer and parser exactly (comments, escaped delimiters, whitespace control)")
 		}
 	})
-	r.floor("stores of the loaded template's tree", n, 1)
+	return n
 }
 
 // checkCompiledImmutable — R16.1c: what was compiled is what is stored.  The fields of a
